@@ -92,7 +92,7 @@ def acyclicSpec (n : Nat) (g : Graph) : Bool :=
 /-! ### clauses and the per-observation checks -/
 
 inductive Clause
-  | reachState | reachCheckExec | reachNotification | liveSet | cycleRejected | refusedUnchanged | edges
+  | reachState | reachCheckExec | reachNotification | liveSet | cycleRejected | refusedUnchanged | edges | terminates
   deriving Repr, DecidableEq
 
 def Clause.name : Clause → String
@@ -103,6 +103,7 @@ def Clause.name : Clause → String
   | .cycleRejected => "cycle_is_rejected"
   | .refusedUnchanged => "refused_addition_leaves_graph_unchanged"
   | .edges => "edges_equal_live_set"
+  | .terminates => "evaluation_terminates"
 
 def Clause.ofAspect : Aspect → Clause
   | .state => .reachState | .checkExec => .reachCheckExec | .notification => .reachNotification
@@ -190,6 +191,7 @@ def specObs (n : Nat) (c : Cfg) : HObs → Option Clause
   | .load batch acc nd => specRuntimeAdd n c.graph (batch.map (·.2)) acc nd
   | .query obs nd => if queryInScope n c.graph then specQuery n c.graph obs nd else none
   | .edges par chi rev => specEdges n c.live par chi rev
+  | .hung => some .terminates          -- "so evaluation always terminates": a query that never answers violates the property
   | _ => none
 
 /-- the property on a whole recorded history: the first violated clause, if any. -/
